@@ -4399,7 +4399,7 @@ class ParseCtx:
         # Parse state_object_spec
         for out in self._parse_tree.find_data("out_decl"):
             out_obj = self._parse_out_decl(out)
-            if out_obj.holds_a(OutputStorageType.STR) and out_obj.default_value is not None and len(out_obj.default_value) > out_obj.effective_string_size():
+            if out_obj.holds_a(OutputStorageType.STR) and out_obj.default_value is not None and len(CodegenCtx._string_bytes(out_obj.default_value)) > out_obj.effective_string_size():
                 raise IllegalParseTree("Default value is too long for output", out)
             if out_obj.name in self.state_object_spec:
                 raise DuplicateDefinitionError("output variable", out, out_obj.name)
@@ -5744,7 +5744,8 @@ class CodegenCtx:
         else:
             raise NotImplementedError("unsupported intexpr type", intexpr)
 
-    def _string_bytes(self, value: Union[bytes, str]) -> bytes:
+    @staticmethod
+    def _string_bytes(value: Union[bytes, str]) -> bytes:
         """
         The bytes a string value denotes: characters below 256 (including those from \\xHH escapes) are single bytes, as they
         are for matches; anything else is UTF-8 encoded.
@@ -5808,10 +5809,11 @@ class CodegenCtx:
             if ProgramData.do(ProgramFlag.ALLOCATE_STR_SPACE_DYNAMIC_ON_DEMAND) and (action.into_storage.default_value is None or ProgramData.do(ProgramFlag.DELETE_STRING_FREE_MEMORY)):  # if it wasn't None it'd be allocated in the start() (but delete may have freed it since)
                 # (also among the start actions: an earlier start action may have assigned the string already)
                 result.add(f"if (!state->c.{action.into_storage.name}) state->c.{action.into_storage.name} = malloc({action.into_storage.str_size});")
-            if len(action.value_expr) > action.into_storage.effective_string_size():
+            # (lengths are in bytes: a character beyond U+00FF is stored as several)
+            if len(self._string_bytes(action.value_expr)) > action.into_storage.effective_string_size():
                 raise IllegalDFAStateError("Literal is too long for output", action)
             result.add(self._generate_set_string(action.value_expr, action.into_storage))
-            result.add(f"state->{action.into_storage.name}_counter = {len(action.value_expr)};")
+            result.add(f"state->{action.into_storage.name}_counter = {len(self._string_bytes(action.value_expr))};")
         elif isinstance(action, DeleteBuf):
             assert action.into_storage.holds_buflike()
 
@@ -5922,7 +5924,7 @@ class CodegenCtx:
                     counter_val = 0
                     if out_expr.default_value is not None:
                         assert out_expr.holds_a(OutputStorageType.STR)
-                        counter_val = len(out_expr.default_value)
+                        counter_val = len(self._string_bytes(out_expr.default_value))
                     contents.add("// initialize append counter for", out_expr.name)
                     contents.add(f"state->{out_expr.name}_counter = {counter_val};")
                     if out_expr.holds_a(OutputStorageType.STR) and out_expr.str_null and out_expr.default_value is None and not self._is_dynamic(out_expr):
